@@ -28,6 +28,13 @@ type GenOpts struct {
 	// when KeyPct is 0, so the cases of the families without keys are what they were.
 	KeyPct  int  // chance per tag node of an output key, and (independently) of an input key
 	KeyBias bool // make the input-keyed nodes pending tasks of a checkpoint: interrupt-before on the node, interrupt-after on a predecessor, or the node asks for a rerun
+
+	// natively streaming nodes (streams.go). No random draw is made when EmitPct is 0.
+	EmitPct         int // chance per plain tag node of becoming a stream producer (emit)
+	EmptyPct        int // chance that a producer closes its stream without any chunk
+	XformPct        int // chance that a producer is a TransformableLambda (reads its input as a stream) instead of a StreamableLambda
+	CollectPct      int // chance per remaining plain tag node of becoming a chunk reader (collect)
+	StreamBranchPct int // chance that a branch condition is a stream condition
 }
 
 func has(edges [][2]string, a, b string) bool {
@@ -48,6 +55,7 @@ func Gen(r *vh.Rand, o GenOpts) *Graph {
 	g := genShape(r, o)
 	decorate(r, o, g)
 	assignKeys(r, o, g)
+	assignStreams(r, o, g)
 	return g
 }
 
